@@ -314,7 +314,7 @@ def deserialize_address(address, encoding=None, network=None):
             elif networks:
                 network = networks[0]
             witness_type = 'segwit' if not witver else 'taproot'
-            if len(public_key_hash) == 20:
+            if len(public_key_hash) == 20 and not witver:
                 script_type = 'p2wpkh'
             else:
                 script_type = 'p2wsh' if not witver else 'p2tr'
